@@ -49,7 +49,7 @@ LEVEL_TEXT = ("Exhaustive over the enumerated product in the thorough tier. Quic
 LEVEL_NOTE = "tornado HTTP parsing/cookie signing, loopback transport, harness state digest"
 QUICK_N = 6_000  # fuzz part; the enumerated part is sized by the product
 THOROUGH_N = 300_000
-BUDGET_S = (150, 3600)
+BUDGET_S = (300, 7200)
 
 SAFE = ("GET", "HEAD", "OPTIONS")
 METHODS = ("GET", "HEAD", "POST", "PUT", "DELETE", "PATCH", "OPTIONS")
